@@ -10,14 +10,14 @@ namespace OasisProofs.MuxH
 open OasisModel.Mux
 
 variable {St W Tx R Root Hdr LC Ev : Type}
-variable [DecidableEq Tx] [DecidableEq Root] [DecidableEq Hdr] [DecidableEq Ev]
+variable [DecidableEq Tx] [DecidableEq Root] [DecidableEq Hdr] [DecidableEq LC] [DecidableEq Ev]
 
 /-! ### `run` -/
 
-theorem run_nil (A : Apps St W Tx R Root Hdr LC Ev) (m : Mux St W Tx R Root Hdr Ev) :
+theorem run_nil (A : Apps St W Tx R Root Hdr LC Ev) (m : Mux St W Tx R Root Hdr LC Ev) :
     run A m [] = some (m, []) := rfl
 
-theorem run_cons (A : Apps St W Tx R Root Hdr LC Ev) (m : Mux St W Tx R Root Hdr Ev)
+theorem run_cons (A : Apps St W Tx R Root Hdr LC Ev) (m : Mux St W Tx R Root Hdr LC Ev)
     (c : Call Tx Root Hdr LC Ev) (cs : List (Call Tx Root Hdr LC Ev)) :
     run A m (c :: cs) =
       (step A m c).bind fun x => (run A x.1 cs).map fun y => (y.1, x.2 :: y.2) := by
@@ -31,7 +31,7 @@ theorem run_cons (A : Apps St W Tx R Root Hdr LC Ev) (m : Mux St W Tx R Root Hdr
     | none => rfl
     | some y => obtain ⟨m'', rs⟩ := y; rfl
 
-theorem run_append (A : Apps St W Tx R Root Hdr LC Ev) (m : Mux St W Tx R Root Hdr Ev)
+theorem run_append (A : Apps St W Tx R Root Hdr LC Ev) (m : Mux St W Tx R Root Hdr LC Ev)
     (xs ys : List (Call Tx Root Hdr LC Ev)) :
     run A m (xs ++ ys) =
       (run A m xs).bind fun x => (run A x.1 ys).map fun y => (y.1, x.2 ++ y.2) := by
@@ -55,7 +55,7 @@ theorem run_append (A : Apps St W Tx R Root Hdr LC Ev) (m : Mux St W Tx R Root H
         | none => rfl
         | some y => simp
 
-theorem run_length (A : Apps St W Tx R Root Hdr LC Ev) (m m' : Mux St W Tx R Root Hdr Ev)
+theorem run_length (A : Apps St W Tx R Root Hdr LC Ev) (m m' : Mux St W Tx R Root Hdr LC Ev)
     (cs : List (Call Tx Root Hdr LC Ev)) (rs : List (Resp Tx R Root))
     (h : run A m cs = some (m', rs)) : rs.length = cs.length := by
   induction cs generalizing m rs with
@@ -73,7 +73,7 @@ theorem run_length (A : Apps St W Tx R Root Hdr LC Ev) (m m' : Mux St W Tx R Roo
 
 /-! ### The committed state and the node address only change in `commit` -/
 
-theorem step_canon (A : Apps St W Tx R Root Hdr LC Ev) (m m' : Mux St W Tx R Root Hdr Ev)
+theorem step_canon (A : Apps St W Tx R Root Hdr LC Ev) (m m' : Mux St W Tx R Root Hdr LC Ev)
     (c : Call Tx Root Hdr LC Ev) (r : Resp Tx R Root)
     (h : step A m c = some (m', r)) (hc : c.isCommit = false) :
     m'.canon = m.canon ∧ m'.self = m.self := by
@@ -88,7 +88,7 @@ theorem step_canon (A : Apps St W Tx R Root Hdr LC Ev) (m m' : Mux St W Tx R Roo
     · split at h <;> (cases h; exact ⟨rfl, rfl⟩)
   | begin hh b =>
     simp only [step, beginBlock] at h
-    have fresh : ∀ {x : Option (Mux St W Tx R Root Hdr Ev × Resp Tx R Root)},
+    have fresh : ∀ {x : Option (Mux St W Tx R Root Hdr LC Ev × Resp Tx R Root)},
         x = (match beginOne A m.canon b.hdr b.lc b.ev with
           | none => none
           | some (wk, rb) => some ({ m with prop := some { recd := none, hash := hh, work := some wk, results := none } }, Resp.res rb)) →
@@ -137,7 +137,7 @@ theorem step_canon (A : Apps St W Tx R Root Hdr LC Ev) (m m' : Mux St W Tx R Roo
   | simulate t => simp only [step, Option.some.injEq] at h; cases h; exact ⟨rfl, rfl⟩
   | query => simp only [step, Option.some.injEq] at h; cases h; exact ⟨rfl, rfl⟩
 
-theorem run_canon (A : Apps St W Tx R Root Hdr LC Ev) (m m' : Mux St W Tx R Root Hdr Ev)
+theorem run_canon (A : Apps St W Tx R Root Hdr LC Ev) (m m' : Mux St W Tx R Root Hdr LC Ev)
     (cs : List (Call Tx Root Hdr LC Ev)) (rs : List (Resp Tx R Root))
     (h : run A m cs = some (m', rs)) (hc : ∀ c ∈ cs, c.isCommit = false) :
     m'.canon = m.canon ∧ m'.self = m.self := by
@@ -171,7 +171,7 @@ theorem map_pair_id {α β : Type} (x : Option (α × β)) : (x.map fun y => (y.
 
 /-- Without cached results the DeliverTx calls compute `deliverAll`. -/
 theorem run_delivers_fresh (A : Apps St W Tx R Root Hdr LC Ev) (self : Nat) (canon check : St)
-    (recd : Option (Hdr × List (RawTx Tx Root) × Ev)) (hash : Hash) (wk : Work W Root)
+    (recd : Option (Hdr × List (RawTx Tx Root) × LC × Ev)) (hash : Hash) (wk : Work W Root)
     (txs : List (RawTx Tx Root)) (rest : List (Call Tx Root Hdr LC Ev)) :
     run A ⟨self, canon, some ⟨recd, hash, some wk, none⟩, check⟩ (txs.map .deliver ++ rest) =
       match deliverAll A (hash == 0) wk txs with
@@ -197,7 +197,7 @@ theorem run_delivers_fresh (A : Apps St W Tx R Root Hdr LC Ev) (self : Nat) (can
 
 /-- With cached results the DeliverTx calls pop the queue. -/
 theorem run_delivers_cached (A : Apps St W Tx R Root Hdr LC Ev) (self : Nat) (canon check : St)
-    (recd : Option (Hdr × List (RawTx Tx Root) × Ev)) (hash : Hash) (work : Option (Work W Root))
+    (recd : Option (Hdr × List (RawTx Tx Root) × LC × Ev)) (hash : Hash) (work : Option (Work W Root))
     (rb re : R) (rs1 rs2 : List R)
     (txs : List (RawTx Tx Root)) (hlen : rs1.length = txs.length) (rest : List (Call Tx Root Hdr LC Ev)) :
     run A ⟨self, canon, some ⟨recd, hash, work, some (rb, rs1 ++ rs2, re)⟩, check⟩ (txs.map .deliver ++ rest) =
@@ -217,7 +217,7 @@ theorem run_delivers_cached (A : Apps St W Tx R Root Hdr LC Ev) (self : Nat) (ca
         Option.map_map]
       rfl
 
-omit [DecidableEq Tx] [DecidableEq Root] [DecidableEq Hdr] [DecidableEq Ev] in
+omit [DecidableEq Tx] [DecidableEq Root] [DecidableEq Hdr] [DecidableEq LC] [DecidableEq Ev] in
 theorem deliverAll_length (A : Apps St W Tx R Root Hdr LC Ev) (he : Bool) (wk wk' : Work W Root)
     (txs : List (RawTx Tx Root)) (rs : List R) (h : deliverAll A he wk txs = some (wk', rs)) :
     rs.length = txs.length := by
@@ -234,11 +234,11 @@ theorem deliverAll_length (A : Apps St W Tx R Root Hdr LC Ev) (he : Bool) (wk wk
         simp [ih _ _ hr]
 
 /-- `BeginBlock` takes the execution path on a fresh overlay. -/
-def BeginsFresh (m : Mux St W Tx R Root Hdr Ev) (h : Hash) : Prop :=
+def BeginsFresh (m : Mux St W Tx R Root Hdr LC Ev) (h : Hash) : Prop :=
   ∀ p, m.prop = some p → p.hash = h → p.results = none ∧ p.work = none
 
-omit [DecidableEq Tx] [DecidableEq Root] [DecidableEq Hdr] [DecidableEq Ev] in
-theorem beginBlock_fresh (A : Apps St W Tx R Root Hdr LC Ev) (m : Mux St W Tx R Root Hdr Ev)
+omit [DecidableEq Tx] [DecidableEq Root] [DecidableEq Hdr] [DecidableEq LC] [DecidableEq Ev] in
+theorem beginBlock_fresh (A : Apps St W Tx R Root Hdr LC Ev) (m : Mux St W Tx R Root Hdr LC Ev)
     (h : Hash) (b : Blk Tx Root Hdr LC Ev) (hf : BeginsFresh m h) :
     beginBlock A m h b =
       match beginOne A m.canon b.hdr b.lc b.ev with
@@ -259,7 +259,7 @@ theorem beginBlock_fresh (A : Apps St W Tx R Root Hdr LC Ev) (m : Mux St W Tx R 
       cases beginOne A m.canon b.hdr b.lc b.ev <;> rfl
 
 /-- Final delivery of a block when nothing usable is cached: exactly the executor. -/
-theorem run_deliverSeq_fresh (A : Apps St W Tx R Root Hdr LC Ev) (m : Mux St W Tx R Root Hdr Ev)
+theorem run_deliverSeq_fresh (A : Apps St W Tx R Root Hdr LC Ev) (m : Mux St W Tx R Root Hdr LC Ev)
     (h : Hash) (hnz : h ≠ 0) (b : Blk Tx Root Hdr LC Ev) (hf : BeginsFresh m h) :
     run A m (deliverSeq h b) =
       (exec A m.canon b).map fun x =>
@@ -285,7 +285,7 @@ theorem run_deliverSeq_fresh (A : Apps St W Tx R Root Hdr LC Ev) (m : Mux St W T
 
 /-- Final delivery of a block whose results are cached under its hash. -/
 theorem run_deliverSeq_cached (A : Apps St W Tx R Root Hdr LC Ev) (self : Nat) (canon check : St)
-    (recd : Option (Hdr × List (RawTx Tx Root) × Ev)) (h : Hash) (wk : Work W Root)
+    (recd : Option (Hdr × List (RawTx Tx Root) × LC × Ev)) (h : Hash) (wk : Work W Root)
     (rb re : R) (rds : List R) (b : Blk Tx Root Hdr LC Ev) (hlen : rds.length = b.txs.length) :
     run A ⟨self, canon, some ⟨recd, h, some wk, some (rb, rds, re)⟩, check⟩ (deliverSeq h b) =
       some (⟨self, A.tree wk.w, none, A.tree wk.w⟩,
@@ -299,7 +299,7 @@ theorem run_deliverSeq_cached (A : Apps St W Tx R Root Hdr LC Ev) (self : Nat) (
 
 /-! ### What PrepareProposal caches is what a validator computes for the completed block -/
 
-omit [DecidableEq Tx] [DecidableEq Root] [DecidableEq Hdr] [DecidableEq Ev] in
+omit [DecidableEq Tx] [DecidableEq Root] [DecidableEq Hdr] [DecidableEq LC] [DecidableEq Ev] in
 theorem deliverAll_append (A : Apps St W Tx R Root Hdr LC Ev) (he : Bool) (wk : Work W Root)
     (xs ys : List (RawTx Tx Root)) :
     deliverAll A he wk (xs ++ ys) =
@@ -331,7 +331,7 @@ theorem deliverAll_append (A : Apps St W Tx R Root Hdr LC Ev) (he : Bool) (wk : 
         | none => rfl
         | some z => rfl
 
-omit [DecidableEq Tx] [DecidableEq Root] [DecidableEq Hdr] [DecidableEq Ev] in
+omit [DecidableEq Tx] [DecidableEq Root] [DecidableEq Hdr] [DecidableEq LC] [DecidableEq Ev] in
 /-- A list of transactions that executes in proposing mode (empty hash) contains no system
 transaction, executes identically under a real hash, and leaves the multiplexer-owned parts of
 the block context untouched. -/
@@ -412,11 +412,6 @@ structure Env (A : Apps St W Tx R Root Hdr LC Ev) (hashOf : Blk Tx Root Hdr LC E
   hnz : ∀ b, hashOf b ≠ 0
   /-- ProcessProposal carries the hash of the block it carries. -/
   wf : ∀ h b, Call.process h b ∈ cs → h = hashOf b
-  /-- **The environment hypothesis forced by `isEqual`**: a block offered for processing that
-  agrees with a block this node prepared in header and evidence carries the last-commit info it
-  was prepared with (`isEqual` does not look at the commit info). -/
-  commitInfo : ∀ b0 h b, Call.prepare b0 ∈ cs → Call.process h b ∈ cs →
-    b.hdr = b0.hdr → b.ev = b0.ev → b.lc = b0.lc
   /-- PrepareProposal is only called with the node's own address as proposer. -/
   selfProposer : ∀ b0, Call.prepare b0 ∈ cs → A.proposer b0.hdr = me
 
@@ -428,33 +423,33 @@ def PreparedBy (A : Apps St W Tx R Root Hdr LC Ev) (s : St) (self : Nat) (b0 : B
 /-- The proposal cache is either untouched, or holds the executor's results for the block its
 hash names; recorded inputs come from a PrepareProposal of this height. -/
 def Good (A : Apps St W Tx R Root Hdr LC Ev) (hashOf : Blk Tx Root Hdr LC Ev → Hash)
-    (cs : List (Call Tx Root Hdr LC Ev)) (s : St) (self : Nat) (p : Proposal W Tx R Root Hdr Ev) : Prop :=
+    (cs : List (Call Tx Root Hdr LC Ev)) (s : St) (self : Nat) (p : Proposal W Tx R Root Hdr LC Ev) : Prop :=
   match p.results with
   | none => p.work = none
   | some res =>
-    (∀ hdr txs ev, p.recd = some (hdr, txs, ev) →
-      ∃ b0 wk, Call.prepare b0 ∈ cs ∧ hdr = b0.hdr ∧ ev = b0.ev ∧ p.work = some wk ∧
+    (∀ hdr txs lc ev, p.recd = some (hdr, txs, lc, ev) →
+      ∃ b0 wk, Call.prepare b0 ∈ cs ∧ hdr = b0.hdr ∧ lc = b0.lc ∧ ev = b0.ev ∧ p.work = some wk ∧
         PreparedBy A s self b0 wk txs res) ∧
     (p.hash = 0 ∨ ∃ b wk' wk, p.hash = hashOf b ∧ exec A s b = some (wk', res.1, res.2.1, res.2.2) ∧
       p.work = some wk ∧ wk.w = wk'.w)
 
 def Inv (A : Apps St W Tx R Root Hdr LC Ev) (hashOf : Blk Tx Root Hdr LC Ev → Hash)
-    (cs : List (Call Tx Root Hdr LC Ev)) (s : St) (self : Nat) (m : Mux St W Tx R Root Hdr Ev) : Prop :=
+    (cs : List (Call Tx Root Hdr LC Ev)) (s : St) (self : Nat) (m : Mux St W Tx R Root Hdr LC Ev) : Prop :=
   m.canon = s ∧ m.self = self ∧ ∀ p, m.prop = some p → Good A hashOf cs s self p
 
-theorem isEqual_recd (p : Proposal W Tx R Root Hdr Ev) (hdr : Hdr) (txs : List (RawTx Tx Root)) (ev : Ev)
-    (h : isEqual p hdr txs ev = true) : p.recd = some (hdr, txs, ev) := by
+theorem isEqual_recd (p : Proposal W Tx R Root Hdr LC Ev) (hdr : Hdr) (txs : List (RawTx Tx Root)) (lc : LC)
+    (ev : Ev) (h : isEqual p hdr txs lc ev = true) : p.recd = some (hdr, txs, lc, ev) := by
   unfold isEqual at h
   split at h
   · cases h
-  · rename_i h' t' e' hr
+  · rename_i h' t' l' e' hr
     simp only [Bool.and_eq_true, beq_iff_eq] at h
-    obtain ⟨⟨rfl, rfl⟩, rfl⟩ := h
+    obtain ⟨⟨⟨rfl, rfl⟩, rfl⟩, rfl⟩ := h
     exact hr
 
 theorem step_pre_inv (A : Apps St W Tx R Root Hdr LC Ev) (hashOf : Blk Tx Root Hdr LC Ev → Hash)
     (cs : List (Call Tx Root Hdr LC Ev)) (s : St) (self : Nat) (env : Env A hashOf self cs)
-    (m m' : Mux St W Tx R Root Hdr Ev) (c : Call Tx Root Hdr LC Ev) (r : Resp Tx R Root)
+    (m m' : Mux St W Tx R Root Hdr LC Ev) (c : Call Tx Root Hdr LC Ev) (r : Resp Tx R Root)
     (hc : c ∈ cs) (hpre : c.isPre = true) (hinv : Inv A hashOf cs s self m)
     (hs : step A m c = some (m', r)) : Inv A hashOf cs s self m' := by
   obtain ⟨hcanon, hself, hgood⟩ := hinv
@@ -480,10 +475,10 @@ theorem step_pre_inv (A : Apps St W Tx R Root Hdr LC Ev) (hashOf : Blk Tx Root H
       subst hp
       simp only [Good]
       refine ⟨?_, Or.inl trivial⟩
-      intro hdr txs ev hrec
+      intro hdr txs lc ev hrec
       simp only [Option.some.injEq, Prod.mk.injEq] at hrec
-      obtain ⟨rfl, rfl, rfl⟩ := hrec
-      refine ⟨b0, wk, hc, rfl, rfl, rfl, rb, rds, re, ?_, ?_, rfl⟩
+      obtain ⟨rfl, rfl, rfl, rfl⟩ := hrec
+      refine ⟨b0, wk, hc, rfl, rfl, rfl, rfl, rb, rds, re, ?_, ?_, rfl⟩
       · rw [← hcanon]; exact he
       · rw [hself]
   | process h b =>
@@ -503,14 +498,13 @@ theorem step_pre_inv (A : Apps St W Tx R Root Hdr LC Ev) (hashOf : Blk Tx Root H
         simp only [hp, Option.map_some, Option.some.injEq] at hp'
         subst hp'
         have hg := hgood p hp
-        have hrec := isEqual_recd p b.hdr b.txs b.ev hr.2
+        have hrec := isEqual_recd p b.hdr b.txs b.lc b.ev hr.2
         cases hres : p.results with
         | none => simp [hres] at hr
         | some res =>
           simp only [Good, hres] at hg ⊢
           refine ⟨hg.1, Or.inr ?_⟩
-          obtain ⟨b0, wk, hb0, hhdr, hev, hwork, rb, rds, re, hexec, htxs, hres'⟩ := hg.1 _ _ _ hrec
-          have hlc : b.lc = b0.lc := env.commitInfo b0 h b hb0 hc hhdr hev
+          obtain ⟨b0, wk, hb0, hhdr, hlc, hev, hwork, rb, rds, re, hexec, htxs, hres'⟩ := hg.1 _ _ _ _ hrec
           have := exec_prepared A s b0.hdr b0.lc b0.ev b0.txs self wk rb re rds hexec (env.selfProposer b0 hb0)
           refine ⟨b, { wk with sys := [some (A.root (A.tree wk.w), A.evroot wk.w)] }, wk, hh, ?_, hwork, rfl⟩
           simp only [exec, hhdr, hev, hlc, htxs, this, hres']
@@ -533,7 +527,7 @@ theorem step_pre_inv (A : Apps St W Tx R Root Hdr LC Ev) (hashOf : Blk Tx Root H
         simp only [Option.some.injEq] at hp
         subst hp
         simp only [Good]
-        refine ⟨(by intro _ _ _ h; cases h), Or.inr ⟨b, wk, wk, hh, ?_, rfl, rfl⟩⟩
+        refine ⟨(by intro _ _ _ _ h; cases h), Or.inr ⟨b, wk, wk, hh, ?_, rfl, rfl⟩⟩
         rw [← hcanon]; exact he
   | restart =>
     simp only [step, restart, Option.some.injEq, Prod.mk.injEq] at hs
@@ -557,14 +551,14 @@ theorem step_pre_inv (A : Apps St W Tx R Root Hdr LC Ev) (hashOf : Blk Tx Root H
   | commit => simp [Call.isPre] at hpre
 
 /-- Undecided-phase calls never fail. -/
-theorem step_pre_some (A : Apps St W Tx R Root Hdr LC Ev) (m : Mux St W Tx R Root Hdr Ev)
+theorem step_pre_some (A : Apps St W Tx R Root Hdr LC Ev) (m : Mux St W Tx R Root Hdr LC Ev)
     (c : Call Tx Root Hdr LC Ev) (hpre : c.isPre = true) : ∃ x, step A m c = some x := by
   cases c <;> simp [Call.isPre, step] at hpre ⊢
 
 theorem run_pre_inv (A : Apps St W Tx R Root Hdr LC Ev) (hashOf : Blk Tx Root Hdr LC Ev → Hash)
     (cs : List (Call Tx Root Hdr LC Ev)) (s : St) (self : Nat) (env : Env A hashOf self cs)
     (P : List (Call Tx Root Hdr LC Ev)) (hP : ∀ c ∈ P, c ∈ cs ∧ c.isPre = true)
-    (m : Mux St W Tx R Root Hdr Ev) (hinv : Inv A hashOf cs s self m) :
+    (m : Mux St W Tx R Root Hdr LC Ev) (hinv : Inv A hashOf cs s self m) :
     ∃ m' rs, run A m P = some (m', rs) ∧ Inv A hashOf cs s self m' := by
   induction P generalizing m with
   | nil => exact ⟨m, [], rfl, hinv⟩
@@ -580,7 +574,7 @@ executor's state and results — from the cache or by execution. -/
 theorem inv_deliver (A : Apps St W Tx R Root Hdr LC Ev) (hashOf : Blk Tx Root Hdr LC Ev → Hash)
     (cs : List (Call Tx Root Hdr LC Ev)) (s : St) (self : Nat)
     (hinj : ∀ b b', hashOf b = hashOf b' → b = b') (hnz : ∀ b, hashOf b ≠ 0)
-    (m : Mux St W Tx R Root Hdr Ev) (hinv : Inv A hashOf cs s self m) (b : Blk Tx Root Hdr LC Ev) :
+    (m : Mux St W Tx R Root Hdr LC Ev) (hinv : Inv A hashOf cs s self m) (b : Blk Tx Root Hdr LC Ev) :
     run A m (deliverSeq (hashOf b) b) =
       (exec A s b).map fun x => (⟨self, A.tree x.1.w, none, A.tree x.1.w⟩, deliverResps A x) := by
   obtain ⟨hcanon, hself, hgood⟩ := hinv
@@ -623,10 +617,10 @@ theorem inv_deliver (A : Apps St W Tx R Root Hdr LC Ev) (hashOf : Blk Tx Root Hd
 /-! ### CheckTx, gas estimation and queries touch nothing block processing reads -/
 
 /-- Everything block processing reads or writes, i.e. all but the CheckTx tree. -/
-def core (m : Mux St W Tx R Root Hdr Ev) : Nat × St × Option (Proposal W Tx R Root Hdr Ev) :=
+def core (m : Mux St W Tx R Root Hdr LC Ev) : Nat × St × Option (Proposal W Tx R Root Hdr LC Ev) :=
   (m.self, m.canon, m.prop)
 
-theorem step_noise (A : Apps St W Tx R Root Hdr LC Ev) (m : Mux St W Tx R Root Hdr Ev)
+theorem step_noise (A : Apps St W Tx R Root Hdr LC Ev) (m : Mux St W Tx R Root Hdr LC Ev)
     (c : Call Tx Root Hdr LC Ev) (hn : c.isNoise = true) :
     ∃ m' r, step A m c = some (m', r) ∧ core m' = core m := by
   cases c <;> simp [Call.isNoise] at hn
@@ -634,7 +628,7 @@ theorem step_noise (A : Apps St W Tx R Root Hdr LC Ev) (m : Mux St W Tx R Root H
   · exact ⟨_, _, rfl, rfl⟩
   · exact ⟨_, _, rfl, rfl⟩
 
-theorem step_core (A : Apps St W Tx R Root Hdr LC Ev) (m1 m2 : Mux St W Tx R Root Hdr Ev)
+theorem step_core (A : Apps St W Tx R Root Hdr LC Ev) (m1 m2 : Mux St W Tx R Root Hdr LC Ev)
     (hc : core m1 = core m2) (c : Call Tx Root Hdr LC Ev) (hn : c.isNoise = false) :
     (step A m1 c).map (fun x => (core x.1, x.2)) = (step A m2 c).map (fun x => (core x.1, x.2)) := by
   obtain ⟨a1, b1, c1, d1⟩ := m1
@@ -647,10 +641,10 @@ theorem step_core (A : Apps St W Tx R Root Hdr LC Ev) (m1 m2 : Mux St W Tx R Roo
     split <;> rfl
   | process h b =>
     simp only [step, process, Option.map_some, Option.some.injEq]
-    have hr : reusable (⟨a1, b1, c1, d1⟩ : Mux St W Tx R Root Hdr Ev) b =
-        reusable (⟨a1, b1, c1, d2⟩ : Mux St W Tx R Root Hdr Ev) b := rfl
+    have hr : reusable (⟨a1, b1, c1, d1⟩ : Mux St W Tx R Root Hdr LC Ev) b =
+        reusable (⟨a1, b1, c1, d2⟩ : Mux St W Tx R Root Hdr LC Ev) b := rfl
     rw [hr]
-    by_cases hre : reusable (⟨a1, b1, c1, d2⟩ : Mux St W Tx R Root Hdr Ev) b = true
+    by_cases hre : reusable (⟨a1, b1, c1, d2⟩ : Mux St W Tx R Root Hdr LC Ev) b = true
     · simp only [hre, if_true]; rfl
     · simp only [hre]
       cases execBlock A b1 (h == 0) b.hdr b.lc b.ev b.txs <;> rfl
@@ -702,7 +696,7 @@ theorem step_core (A : Apps St W Tx R Root Hdr LC Ev) (m1 m2 : Mux St W Tx R Roo
 
 /-- Removing the CheckTx / simulation / query calls from a trace changes neither the state block
 processing sees nor any response to the remaining calls. -/
-theorem run_strip (A : Apps St W Tx R Root Hdr LC Ev) (m1 m2 : Mux St W Tx R Root Hdr Ev)
+theorem run_strip (A : Apps St W Tx R Root Hdr LC Ev) (m1 m2 : Mux St W Tx R Root Hdr LC Ev)
     (hc : core m1 = core m2) (cs : List (Call Tx Root Hdr LC Ev)) :
     (run A m1 cs).map (fun x => (core x.1, keepCore cs x.2)) =
       (run A m2 (cs.filter fun c => !c.isNoise)).map (fun x => (core x.1, x.2)) := by
